@@ -312,3 +312,247 @@ Proof.
     apply tk_num_inj. exact E.
 Qed.
 
+(* ================================================================================================ *)
+(* 3. detectors                                                                                       *)
+(* ================================================================================================ *)
+Definition gen_of (m : macrodef) : result (grammar * tables * list conflict * list lrstate) :=
+  generate_tables max_states (detector_grammar m) detector_prefix_mode
+                  (Nt (N.of_nat detector_start)) (Tm (tk_num detector_eof)).
+
+Lemma make_detector_unfold m :
+  make_detector m = bind (gen_of m) (fun r => let '(_, tab, confs, _) := r in Ok (mkDet m tab confs)).
+Proof. unfold make_detector, gen_of. reflexivity. Qed.
+
+Definition empty_macro : macrodef := mkMacro 0 [] [] [] [].
+
+Lemma empty_confs :
+  match gen_of empty_macro with Ok (_, _, confs, _) => confs = [] | _ => True end.
+Proof. vm_compute. reflexivity. Qed.
+
+Lemma gen_of_rule m m' : m_rule m = m_rule m' -> gen_of m = gen_of m'.
+Proof. intros H. unfold gen_of, detector_grammar. rewrite H. reflexivity. Qed.
+
+Global Opaque generate_tables.
+
+Lemma gen_sound m g' tab confs states : rule_ok m -> gen_of m = Ok (g', tab, confs, states) ->
+  forall fuel input v, parse translator creator semantic tab fuel input = Ok (Some v) ->
+    exists (tr : ttree) rest, validT (detector_grammar m) tr /\ rootT tr = Nt 7%N /\
+                              input = yield tr ++ rest /\ v = valueT tr.
+Proof.
+  intros R HG fuel input v HP. unfold gen_of in HG.
+  destruct (C13_sound_partial token accum translator creator semantic max_states (detector_grammar m)
+              detector_prefix_mode (Nt (N.of_nat detector_start)) (Tm (tk_num detector_eof))
+              g' tab confs states fuel input v (dg_wf m R) (dg_start_ok m R) (dg_rhs_closed m R) HG HP)
+    as (tr & rest & A & B & C & D & _).
+  exists tr, rest. split; [exact A|]. split; [exact B|]. split; [exact C|exact D].
+Qed.
+
+Lemma gen_safe m g' tab confs states : rule_ok m -> gen_of m = Ok (g', tab, confs, states) ->
+  forall input, (exists pre tok post, input = pre ++ tok :: post /\ tk tok = T_EOF) ->
+  forall fuel, parse translator creator semantic tab fuel input = Fuel \/
+               exists r, parse translator creator semantic tab fuel input = Ok r.
+Proof.
+  intros R HG input (pre & tok & post & E & K) fuel. unfold gen_of in HG.
+  apply (C13_driver_safe_partial token accum translator creator semantic max_states (detector_grammar m)
+              detector_prefix_mode (Nt (N.of_nat detector_start)) (Tm (tk_num detector_eof))
+              g' tab confs states input (dg_wf m R) (dg_start_ok m R) (dg_rhs_closed m R)
+              (dg_eof_fresh m R) HG).
+  exists pre, tok, post. split; [exact E|]. unfold translator. rewrite K. reflexivity.
+Qed.
+
+Lemma gen_total m : rule_ok m -> gen_of m = Fuel \/ exists r, gen_of m = Ok r.
+Proof.
+  intros R. unfold gen_of.
+  exact (C13_generate_total_partial max_states (detector_grammar m) detector_prefix_mode
+           (Nt (N.of_nat detector_start)) (Tm (tk_num detector_eof))
+           (dg_wf m R) (dg_start_ok m R) (dg_rhs_closed m R)).
+Qed.
+
+Global Opaque gen_of.
+
+Lemma make_detector_inv m d : make_detector m = Ok d ->
+  exists g' tab confs states, gen_of m = Ok (g', tab, confs, states) /\ d = mkDet m tab confs.
+Proof.
+  rewrite make_detector_unfold. intros H. bind_inv H r Hr.
+  destruct r as [[[g' tab] confs] states]. cbv beta iota in H.
+  exists g', tab, confs, states. split; [exact Hr|]. injection H as H. symmetry; exact H.
+Qed.
+
+Lemma make_detector_total m : rule_ok m -> make_detector m = Fuel \/ exists d, make_detector m = Ok d.
+Proof.
+  intros R. rewrite make_detector_unfold. destruct (gen_total m R) as [E|([[[g' tab] confs] states] & E)]; rewrite E.
+  - left; reflexivity.
+  - right. eexists. reflexivity.
+Qed.
+
+Global Opaque make_detector.
+
+Lemma empty_rule_confs m d : make_detector m = Ok d -> m_rule m = [] -> d_conflicts d = [].
+Proof.
+  intros H E. destruct (make_detector_inv _ _ H) as (g' & tab & confs & states & HG & ->).
+  cbn [d_conflicts]. rewrite (gen_of_rule m empty_macro E) in HG.
+  pose proof empty_confs as K. rewrite HG in K. exact K.
+Qed.
+
+Lemma detector_errors_total m d : make_detector m = Ok d -> exists e, detector_errors d = Ok e.
+Proof.
+  intros H. unfold detector_errors. destruct (d_conflicts d) eqn:EC; [eauto|].
+  destruct (make_detector_inv _ _ H) as (g' & tab & confs & states & HG & E).
+  assert (DM : d_macro d = m) by (rewrite E; reflexivity). rewrite DM.
+  destruct (m_rule m) eqn:ER; [|eauto].
+  rewrite (empty_rule_confs m d H ER) in EC. discriminate.
+Qed.
+(* ================================================================================================ *)
+(* 4. detection                                                                                       *)
+(* ================================================================================================ *)
+Local Open Scope Z_scope.
+
+Lemma ap_str_eqb_eq a : forall b, str_eqb a b = true -> a = b.
+Proof.
+  induction a as [|x a IH]; destruct b as [|y b]; cbn [str_eqb]; try discriminate; auto.
+  intros H. apply andb_true_iff in H. destruct H as [H1 H2]. apply N.eqb_eq in H1. subst.
+  f_equal. auto.
+Qed.
+
+Lemma check_constraint_true rule matched : forall cc, check_constraint rule matched cc = Ok true ->
+  forall c p, In c cc -> znth rule c = Some p ->
+    exists t, znth matched c = Some [t] /\ ttext t = ttext p.
+Proof.
+  induction cc as [|c0 cc IH]; intros H c p HI HZ; [destruct HI|].
+  cbn [check_constraint] in H. bind_inv H req Hreq. bind_inv H found Hf.
+  apply of_opt_Ok in Hreq. apply of_opt_Ok in Hf.
+  destruct found as [|f [|f2 fr]]; try discriminate.
+  destruct (str_eqb (ttext f) (ttext req)) eqn:E; [|discriminate].
+  destruct HI as [<-|HI]; [|eauto].
+  rewrite HZ in Hreq. inversion Hreq; subst. exists f. split; auto. apply ap_str_eqb_eq; auto.
+Qed.
+
+Lemma check_constraint_total rule (matched : list (list token)) : length matched = length rule ->
+  forall cc, Forall (fun i => 0 <= i < zlen rule) cc -> exists b, check_constraint rule matched cc = Ok b.
+Proof.
+  intros L. induction cc as [|c cc IH]; intros F; [eexists; reflexivity|].
+  inversion F as [|c' cc' Hc Hcc]; subst. cbn [check_constraint].
+  destruct (xe_znth_some rule c Hc) as (req & E1 & _). rewrite E1. cbn [of_opt bind].
+  destruct (xe_znth_some matched c) as (fd & E2 & _).
+  { unfold zlen in *. rewrite L. exact Hc. }
+  rewrite E2. cbn [of_opt bind].
+  destruct fd as [|f [|f2 fr]]; try (eexists; reflexivity).
+  destruct (str_eqb (ttext f) (ttext req)); [auto|eexists; reflexivity].
+Qed.
+
+Lemma zlen_cons {A} (x : A) l : zlen (x :: l) = zlen l + 1.
+Proof. unfold zlen. cbn [length]. lia. Qed.
+
+Lemma zlen_app {A} (a b : list A) : zlen (a ++ b) = zlen a + zlen b.
+Proof. unfold zlen. rewrite app_length. lia. Qed.
+
+Lemma zlen_nonneg {A} (l : list A) : 0 <= zlen l.
+Proof. unfold zlen. lia. Qed.
+
+Lemma detect_from_inv m d : rule_ok m -> make_detector m = Ok d -> forall input i r,
+  detect_from d input i = Ok (Some r) ->
+  exists pre (tr : ttree) rest,
+    input = pre ++ yield tr ++ rest /\ r_location r = i + zlen pre /\ yield tr ++ rest <> [] /\
+    validT (detector_grammar m) tr /\ rootT tr = Nt 7%N /\
+    r_length r = zlen (fst (valueT tr)) /\ r_matched r = snd (valueT tr) /\
+    check_constraint (m_rule m) (r_matched r) (m_cc m) = Ok true.
+Proof.
+  intros R HM. destruct (make_detector_inv _ _ HM) as (g' & tab & confs & states & HG & ->).
+  induction input as [|x rest0 IH]; intros i r H.
+  - cbn [detect_from] in H. discriminate.
+  - rewrite detect_from_cons in H. cbn [d_tab d_macro] in H. bind_inv H p Hp.
+    assert (REC : detect_from (mkDet m tab confs) rest0 (i + 1) = Ok (Some r) ->
+      exists pre (tr : ttree) rest,
+        x :: rest0 = pre ++ yield tr ++ rest /\ r_location r = i + zlen pre /\ yield tr ++ rest <> [] /\
+        validT (detector_grammar m) tr /\ rootT tr = Nt 7%N /\
+        r_length r = zlen (fst (valueT tr)) /\ r_matched r = snd (valueT tr) /\
+        check_constraint (m_rule m) (r_matched r) (m_cc m) = Ok true).
+    { intros H'. destruct (IH _ _ H') as (pre & tr & rest & E & L & K).
+      exists (x :: pre), tr, rest. split; [rewrite E; reflexivity|]. split; [rewrite zlen_cons; lia|exact K]. }
+    destruct p as [[total split]|]; [|apply REC; exact H].
+    bind_inv H ok Hok. destruct ok; [|apply REC; exact H].
+    inversion H; subst r. cbn [r_location r_length r_matched].
+    destruct (gen_sound m _ _ _ _ R HG _ _ _ Hp) as (tr & rest & A & B & C & D).
+    exists [], tr, rest. rewrite <- D. cbn [fst snd app].
+    split; [exact C|]. split; [unfold zlen; cbn [length]; lia|]. split; [rewrite <- C; discriminate|].
+    split; [exact A|]. split; [exact B|]. split; [reflexivity|]. split; [reflexivity|exact Hok].
+Qed.
+
+Lemma detect_facts m d input i r : rule_ok m -> make_detector m = Ok d ->
+  detect_from d input i = Ok (Some r) ->
+  exists pre rest (ch : list ttree),
+    input = pre ++ concat (map yield ch) ++ rest /\ r_location r = i + zlen pre /\
+    concat (map yield ch) ++ rest <> [] /\
+    r_length r = zlen (concat (map yield ch)) /\ r_matched r = map yield ch /\
+    map rootT ch = pat_rhs m /\ Forall (fun c => validT (detector_grammar m) c /\ lowQ c) ch /\
+    check_constraint (m_rule m) (map yield ch) (m_cc m) = Ok true.
+Proof.
+  intros R HM H. destruct (detect_from_inv m d R HM _ _ _ H) as (pre & tr & rest & E & L & NE & A & B & LN & MT & CC).
+  destruct (macro_tree m tr R A B) as (ch & Y & V & RT & Q).
+  exists pre, rest, ch. rewrite V in LN, MT. cbn [fst snd] in LN, MT. rewrite Y in E, NE. rewrite MT in CC.
+  split; [exact E|]. split; [exact L|]. split; [exact NE|]. split.
+  { rewrite LN. unfold zlen. rewrite length_concat_rev. reflexivity. }
+  split; [exact MT|]. split; [exact RT|]. split; [exact Q|exact CC].
+Qed.
+
+Lemma matched_length m (ch : list ttree) : map rootT ch = pat_rhs m -> length (map yield ch) = length (m_rule m).
+Proof.
+  intros H. rewrite map_length. rewrite <- (map_length rootT ch), H. unfold pat_rhs. apply map_length.
+Qed.
+
+Lemma matched_noeof (ch : list ttree) m : Forall (fun c => validT (detector_grammar m) c /\ lowQ c) ch ->
+  Forall noeof (map yield ch) /\ noeof (concat (map yield ch)).
+Proof.
+  intros H. assert (HQ : Forall lowQ ch) by (eapply Forall_impl; [|exact H]; intros c [_ Q]; exact Q).
+  split; [|apply (lowQ_children ch HQ)].
+  clear H. induction HQ as [|c r (_ & _ & N) HR IH]; cbn [map]; constructor; auto.
+Qed.
+
+Lemma skipn_app_len {A} (a b : list A) : skipn (length a) (a ++ b) = b.
+Proof. induction a; cbn; auto. Qed.
+
+Lemma firstn_app_len {A} (a b : list A) : firstn (length a) (a ++ b) = a.
+Proof. induction a; cbn; [reflexivity|]. f_equal; auto. Qed.
+
+Lemma to_nat_zlen {A} (l : list A) : Z.to_nat (zlen l) = length l.
+Proof. unfold zlen. apply Nat2Z.id. Qed.
+
+(* ---- totality of detect on streams that end with an end-of-file token ------------------------------ *)
+Definition ends_eof (l : list token) : Prop := l = [] \/ exists pre e, l = pre ++ [e] /\ tk e = T_EOF.
+
+Lemma ends_eof_tl x l : ends_eof (x :: l) -> ends_eof l.
+Proof.
+  intros [H|(pre & e & E & K)]; [discriminate|].
+  destruct pre as [|y pre]; cbn in E; inversion E; subst.
+  - left; reflexivity.
+  - right. eauto.
+Qed.
+
+Lemma ends_eof_has x l : ends_eof (x :: l) ->
+  exists pre tok post, x :: l = pre ++ tok :: post /\ tk tok = T_EOF.
+Proof. intros [H|(pre & e & E & K)]; [discriminate|]. exists pre, e, []. auto. Qed.
+
+Lemma eofterm_ends l : eof_terminated l -> ends_eof l.
+Proof. intros (body & e & E & K & _). right. eauto. Qed.
+
+Lemma detect_from_total m d : macro_ok m -> make_detector m = Ok d -> forall input i, ends_eof input ->
+  detect_from d input i = Fuel \/ exists r, detect_from d input i = Ok r.
+Proof.
+  intros MO HM. pose proof (macro_ok_rule m MO) as R.
+  destruct (make_detector_inv _ _ HM) as (g' & tab & confs & states & HG & ->).
+  induction input as [|x rest0 IH]; intros i EE.
+  - right. eexists. reflexivity.
+  - rewrite detect_from_cons. cbn [d_tab d_macro].
+    destruct (gen_safe m _ _ _ _ R HG (x :: rest0) (ends_eof_has _ _ EE) (parse_fuel (x :: rest0))) as [E|(p & E)];
+      rewrite E; cbn [bind].
+    + left; reflexivity.
+    + destruct p as [[total split]|]; [|apply IH; eapply ends_eof_tl; exact EE].
+      destruct (gen_sound m _ _ _ _ R HG _ _ _ E) as (tr & rest & A & B & C & D).
+      destruct (macro_tree m tr R A B) as (ch & Y & V & RT & Q).
+      assert (ES : split = map yield ch) by (rewrite V in D; inversion D; reflexivity).
+      destruct (check_constraint_total (m_rule m) split) with (cc := m_cc m) as (b & Eb).
+      { rewrite ES. apply matched_length. exact RT. }
+      { apply MO. }
+      rewrite Eb. cbn [bind]. destruct b; [right; eexists; reflexivity|].
+      apply IH. eapply ends_eof_tl; exact EE.
+Qed.
